@@ -266,9 +266,10 @@ class CoordinateComponent(Component):
             # convert these straight to world coordinates since the indices
             # of the pixel coordinates are the pixel coordinates themselves.
             if isinstance(view, (tuple, list)) and isinstance(view[0], np.ndarray):
-                axis = self._data.ndim - 1 - self.axis
-                return pixel2world_single_axis(self._data.coords, *view[::-1],
-                                               world_axis=axis)
+                # Negative indices count from the end of each axis, as in any
+                # Numpy indexing, so we look up the pixel positions they refer to
+                pixel = [np.arange(n)[v] for v, n in zip(view, self._data.shape)]
+                return self._world_at_pixel_positions(pixel)
 
             # For 1D arrays, slice can be given as a single slice but we need
             # to wrap it in a list to make the following code work correctly,
@@ -352,6 +353,15 @@ class CoordinateComponent(Component):
             if view is not None:
                 grids = [g[view] for g in grids]
             return grids[self.axis]
+
+    def _world_at_pixel_positions(self, pixel_coords):
+        """
+        World coordinates at arbitrary pixel positions, given as one array per
+        dimension - the positions can be fractional or outside the array.
+        """
+        axis = self._data.ndim - 1 - self.axis
+        return pixel2world_single_axis(self._data.coords, *pixel_coords[::-1],
+                                       world_axis=axis)
 
     @property
     def shape(self):
